@@ -69,14 +69,19 @@ def one(prog, rep, tier, fn, Z):
         its result is the atom nl(<token of the argument term>)"""
         def entry(self, E_, nf, ins):
             E_.gc_roots.add((nf.depth, 1))
+            self.saved = [s_.copy() for s_ in ins]
+            del ins[:]          # the body is not run here (nl() is analysed on its own by C04 rule N1)
 
         def exit(self, E_, nf, rets_):
-            for i, (st, v) in enumerate(rets_):
+            new = []
+            for st in self.saved:        # pure function: the pre-state is the post-state
                 a = E_.scalar(st, st.cells[(nf.depth, 1)]) if (nf.depth, 1) in st.cells else None
-                r = E_.scalar(st, v)
-                if r[0] == 'I' and a is not None and a[0] == 'F' and a[4] is not None:
+                if a is not None and a[0] == 'F' and a[4] is not None:
                     tok = tokens.setdefault(a[4], T('tok', len(tokens)))
-                    rets_[i] = (st, E_.reg(A.mk_int(1, 59, 0, T('nl', tok))))
+                    new.append((st, E_.reg(A.mk_int(1, 59, 0, T('nl', tok)))))
+                else:
+                    new.append((st, A.mk_int(1, 59)))
+            rets_[:] = new
     E.hooks[f_nl['id']] = NlHook()
     E.keep_fact = lambda f: isinstance(f[1], tuple) and f[1][0] == 'discr'
     E.partitions[body['name']] = {'d_lat'}          # states of the two parities are never merged
@@ -180,7 +185,7 @@ def one(prog, rep, tier, fn, Z):
             rep.check(lat[0] == 'F' and lat[4] is not None and lat[4] in used, 'G4-nl-argument', key + '#nl-arg', body['file'],
                       'the number of longitude zones is not computed from the decoded latitude: NL was called with %s' % sorted(set(A.show_term(a)[:60] if a else '?' for a in used)),
                       nontrivial=True)
-    rep.floor('Some return states of ' + fn, nsome, 4)
+    rep.floor('Some return states of ' + fn, nsome, 2)
     bad_args = [a for a in nl_args if a is None or a == t_lat]
     rep.check(not bad_args and nl_args, 'G4-nl-argument', fn + '#nl-never-reference', body['file'], 'NL is called with the reference latitude / an unknown value', nontrivial=True)
 
